@@ -20,19 +20,26 @@ def main(argv=None):
     ap.add_argument('-v', '--verbose', action='store_true')
     ap.add_argument('--write-baseline', action='store_true')
     ap.add_argument('--replay')
+    ap.add_argument('--no-rt', dest='no_rt', action='store_true', help='skip the bounded runtime leg')
     ap.add_argument('--dump', help='write SMT-LIB of obligations whose name contains this string')
     args = ap.parse_args(argv)
-    from . import verify, smt
+    from . import verify, smt, spec as specmod
     verify.load_specs()
     eng = verify.Engine()
     from . import report
+    if args.replay:
+        return replay_file(eng, args)
     if args.fn:
         t0 = time.time()
         obs, probs = [], []
         for q in args.fn:
-            o, p = eng.verify(q, args.cls, forced=dict(f.split('=') for f in args.force))
-            obs += o
-            probs += p
+            forced = dict(f.split('=') for f in args.force)
+            splits = [forced] if forced else report.target_splits(eng, q, args.cls or eng.repo.funcs[q].cls) \
+                if getattr(specmod.lookup(eng.repo, q, args.cls), 'twins', None) else [forced]
+            for fo in splits:
+                o, p = eng.verify(q, args.cls, forced=fo)
+                obs += o
+                probs += p
         obs = report.dedupe(obs)
         res = smt.discharge(obs, timeout_ms=args.timeout, jobs=args.jobs)
         for ob, r in zip(obs, res):
@@ -51,6 +58,47 @@ def main(argv=None):
         print('%d obligations, %d discharged, %d problems, %.1fs' % (n, d, len(probs), time.time() - t0))
         return 0 if d == n and not probs else 2
     return report.run_property(eng, args.target, args)
+
+
+def replay_file(eng, args):
+    """./check --replay <file>: re-run a recorded violation.  A file with a concrete failing input is re-executed on the
+    real code (exit 1 while it still fails); a file that names only an obligation re-generates and re-solves it."""
+    import subprocess
+    from . import runtime, smt, report
+    path = args.replay if os.path.isabs(args.replay) else os.path.join(runtime.ROOT, args.replay)
+    doc = json.load(open(path))
+    prop = doc.get('property')
+    fi = doc.get('failing_input')
+    if fi and fi.get('case') is not None:
+        env = dict(os.environ)
+        env['PYTHONPATH'] = eng.repo.root + os.pathsep + runtime.ROOT
+        p = subprocess.run([runtime.RT_PYTHON, '-m', 'rt.replay', path], cwd=runtime.ROOT, env=env, capture_output=True,
+                           text=True)
+        print((p.stdout or '') + (p.stderr or '')[-1500:])
+        if p.returncode == 1:
+            print('VIOLATION property=%s replay=%s' % (prop, args.replay))
+            return 1
+        return 0 if p.returncode == 0 else 3
+    func = doc.get('function')
+    if not func or func not in eng.repo.funcs:
+        print('nothing to replay in', args.replay)
+        return 3
+    want = report.norm_name(doc.get('obligation', ''))
+    bad = 0
+    from . import spec as specmod
+    for (q, cls), sp in specmod.FUNCS.items():
+        if q != func:
+            continue
+        for fo in report.target_splits(eng, q, cls or eng.repo.funcs[q].cls):
+            obs, _ = eng.verify(q, cls, forced=fo)
+            obs = [o for o in report.dedupe(obs) if report.norm_name(o.name) == want]
+            for ob, r in zip(obs, smt.discharge(obs, timeout_ms=args.timeout, jobs=args.jobs)):
+                print('%-10s %s' % (r['status'], ob.name))
+                bad += r['status'] != 'discharged'
+    if bad:
+        print('VIOLATION property=%s replay=%s no-failing-input-found' % (prop, args.replay))
+        return 1
+    return 0
 
 
 if __name__ == '__main__':
